@@ -15,7 +15,7 @@ func init() {
 		decided: "R1 the host key used to insert and to look up a site is case-folded and port-stripped by the same function on every data path; " +
 			"R2 the matched site's handler chain runs only when a site was found, the not-found branch always writes the site-not-found response (404, 421 for HTTP/2+) and runs no handler; " +
 			"R6 the routing table of the trie: for every set of up to three sites over the host patterns {exact, *.b.c, *.*.c, *.*.*, catch-all, and two shorter patterns that must not match} x path prefixes {/, /x, /xy}, inserted in every order, Match returns the site of the most specific matching host pattern with the longest matching path prefix, or no site (abstract evaluation with opaque labels and path bytes, E10) — this subsumes the former pattern rules R3 (lookup order) and R4 (longest prefix); " +
-			"R5 every write of trie state on the Insert path commutes (idempotent insert-if-absent of a fresh node, the key's own terminal node, a constant, or a monotone accumulation), a necessary condition of declaration-order independence. Since round 4: R7 the routing table of the server as NewServer wires it (sites written with scheme, port, path, any letter case; catch-all and designated fallback sites): a site is found under the host a request will carry, and a designated fallback site for hosts no site has. Since round 5: R1 is retired (what it pinned is decided by R6 and R7 without naming the normalising function). Since round 6: R2 as a table of serveHTTP (no site: the not-found response once, no handler; a site: its chain once, prefix stripped unless /). R8 IP-literal hosts ([::1], [::1]:80, [::]:8080, 127.0.0.1) are filed and found under one name (concrete keys, the library's SplitHostPort).",
+			"R5 every write of trie state on the Insert path commutes (idempotent insert-if-absent of a fresh node, the key's own terminal node, a constant, or a monotone accumulation), a necessary condition of declaration-order independence. Since round 4: R7 the routing table of the server as NewServer wires it (sites written with scheme, port, path, any letter case; catch-all and designated fallback sites): a site is found under the host a request will carry, and a designated fallback site for hosts no site has. Since round 5: R1 is retired (what it pinned is decided by R6 and R7 without naming the normalising function). Since round 6: R2 as a table of serveHTTP (no site: the not-found response once, no handler; a site: its chain once, prefix stripped unless /). R8 IP-literal hosts ([::1], [::1]:80, [::]:8080, 127.0.0.1) are filed and found under one name (concrete keys, the library's SplitHostPort). Since round 8: R9 a site's trie key is its address as written (Address.VHost table), not the lower-cased normalised path.",
 		notDecided: "site sets larger than three and host names with more than three labels (the table is exhaustive below that bound); the relative order of the built-in fallback hosts; path-prefix trimming arithmetic.",
 	})
 }
